@@ -110,3 +110,115 @@ func embeddedCases(o *hx.Out) {
 		}
 	}
 }
+
+// The documented omitempty / "-" rules, checked on the implementation against the set of keys the rule assigns:
+// a field with `omitempty` is left out exactly when the FIELD ITSELF is empty - false, 0, "", a nil pointer, a nil
+// interface, an empty slice / map / array; a non-nil pointer or interface is written whatever it points to.
+type omitRoot struct {
+	B   bool            `nbt:"B,omitempty"`
+	I   int32           `nbt:"I,omitempty"`
+	U   uint16          `nbt:"U,omitempty"`
+	F   float64         `nbt:"F,omitempty"`
+	S   string          `nbt:"S,omitempty"`
+	L   []int16         `nbt:"L,omitempty"`
+	M   map[string]int8 `nbt:"M,omitempty"`
+	PI  *int32          `nbt:"PI,omitempty"`
+	PS  *string         `nbt:"PS,omitempty"`
+	PL  *[]int16        `nbt:"PL,omitempty"`
+	A   any             `nbt:"A,omitempty"`
+	K   int8            `nbt:"K"` // always written
+	Off int8            `nbt:"-"` // never written
+}
+
+func omitCases(o *hx.Out) {
+	r := o.R
+	for i := 0; i < o.N(200, 20); i++ {
+		var v omitRoot
+		want := map[string]bool{"K": true}
+		pick := func(name string) int { // 0 = empty field, 1 = non-empty, 2 = non-nil holder of an empty value
+			k := r.Intn(3)
+			if k != 0 {
+				want[name] = true
+			}
+			return k
+		}
+		if pick("B") != 0 {
+			v.B = true
+		}
+		if pick("I") != 0 {
+			v.I = int32(r.Next()) | 1
+		}
+		if pick("U") != 0 {
+			v.U = uint16(r.Next()) | 1
+		}
+		if pick("F") != 0 {
+			v.F = 1.5
+		}
+		if pick("S") != 0 {
+			v.S = "s"
+		}
+		if pick("L") != 0 {
+			v.L = []int16{0}
+		}
+		if pick("M") != 0 {
+			v.M = map[string]int8{"": 0}
+		}
+		switch pick("PI") {
+		case 1:
+			x := int32(r.Next()) | 1
+			v.PI = &x
+		case 2:
+			v.PI = new(int32) // non-nil pointer to zero: written
+		}
+		switch pick("PS") {
+		case 1:
+			x := "p"
+			v.PS = &x
+		case 2:
+			v.PS = new(string)
+		}
+		switch pick("PL") {
+		case 1:
+			v.PL = &[]int16{3}
+		case 2:
+			v.PL = &[]int16{} // non-nil pointer to an empty slice: written (as an empty list)
+		}
+		switch pick("A") {
+		case 1:
+			v.A = int64(r.Next()) | 1
+		case 2:
+			v.A = int8(0) // non-nil interface holding zero: written
+		}
+		v.Off = int8(r.Next())
+		v.K = int8(r.Next())
+		file := i%2 == 0
+		var buf bytes.Buffer
+		var err error
+		p := hx.Try(func() {
+			e := nbt.NewEncoder(&buf)
+			e.NetworkFormat(!file)
+			err = e.Encode(v, "r")
+		})
+		o.Eval("encode.omitempty", len(want) > 1, hx.Hex(buf.Bytes()))
+		if p != "" || err != nil {
+			o.Fail("C01.encode.omitempty", "value %+v: err=%v panic=%q", v, err, p)
+			continue
+		}
+		t, _, rest, perr := c01x.ParseDoc(buf.Bytes(), file)
+		ok := perr == nil && len(rest) == 0 && t.Kind == c01x.Compound && len(t.Keys) == len(want)
+		if ok {
+			for _, key := range t.Keys {
+				ok = ok && want[string(key)]
+			}
+		}
+		if !ok {
+			keys := []string{}
+			if t != nil {
+				for _, k := range t.Keys {
+					keys = append(keys, string(k))
+				}
+			}
+			o.Fail("C01.encode.omitempty", "value %+v: encoder wrote keys %v (%s), the rule assigns %v", v, keys, hx.Hex(buf.Bytes()), want)
+		}
+	}
+}
